@@ -67,7 +67,7 @@ func (r *ReduceMin) Apply(inputs []tensor.Tensor) ([]tensor.Tensor, error) {
 		}
 	}
 
-	out, err := input.Min(axes...)
+	out, err := ops.ReduceAxes(input, axes, (*tensor.Dense).Min)
 	if err != nil {
 		return nil, err
 	}
